@@ -247,7 +247,8 @@ var anyNumPool = []string{
 
 // wideNumPool adds values that have no short decimal spelling (see NumberOf);
 // they are only handed over as cty values.
-var wideNumPool = []string{"1/3", "-2/7", "1/1024", "10000000000000000000000/3"}
+var wideNumPool = []string{"1/3", "-2/7", "1/1024", "10000000000000000000000/3",
+	"f64:1e20", "f64:-1e20", "f64:18446744073709551616", "f64:9223372036854775808", "f64:9007199254740992", "f64:4294967296.5", "f64:0.5", "f64:1267650600228229401496703205376", "f64:0.000000059604644775390625"}
 
 func genNum(t *rapid.T, ty Type) string {
 	switch {
@@ -265,27 +266,68 @@ func genNum(t *rapid.T, ty Type) string {
 	return rapid.SampledFrom(anyNumPool).Draw(t, "num")
 }
 
-// WidenNumbers replaces some number leaves of an untyped / plain-number value by
-// numbers without a short decimal spelling.  For values that are handed to the
-// code under test as cty values (never for text rendered by this package).
-func WidenNumbers(t *rapid.T, v Val) Val {
-	switch v.K {
-	case "n":
-		if rapid.IntRange(0, 5).Draw(t, "widen") == 5 {
+// WidenNumbers replaces some number leaves of a value of type ty (plain "number"
+// positions only, not inside sets) by numbers without a short decimal spelling or
+// of float64 precision.  For values that are handed to the code under test as cty
+// values (never for text rendered by this package).
+func WidenNumbers(t *rapid.T, v Val, ty Type) Val {
+	switch ty.K {
+	case "number":
+		if v.K == "n" && !ty.Int && !ty.Uint && rapid.IntRange(0, 3).Draw(t, "widen") == 3 {
 			return Num(rapid.SampledFrom(wideNumPool).Draw(t, "widenum"))
 		}
-	case "l":
-		out := Val{K: "l"}
-		for _, e := range v.L {
-			out.L = append(out.L, WidenNumbers(t, e))
+	case "any":
+		switch v.K {
+		case "n":
+			if rapid.IntRange(0, 3).Draw(t, "widen") == 3 {
+				return Num(rapid.SampledFrom(wideNumPool).Draw(t, "widenum"))
+			}
+		case "l":
+			out := Val{K: "l"}
+			for _, e := range v.L {
+				out.L = append(out.L, WidenNumbers(t, e, ty))
+			}
+			return out
+		case "m":
+			out := Val{K: "m"}
+			for _, kv := range v.M {
+				out.M = append(out.M, KV{K: kv.K, V: WidenNumbers(t, kv.V, ty)})
+			}
+			return out
 		}
-		return out
-	case "m":
-		out := Val{K: "m"}
-		for _, kv := range v.M {
-			out.M = append(out.M, KV{K: kv.K, V: WidenNumbers(t, kv.V)})
+	case "list":
+		if v.K == "l" {
+			out := Val{K: "l"}
+			for _, e := range v.L {
+				out.L = append(out.L, WidenNumbers(t, e, *ty.E))
+			}
+			return out
 		}
-		return out
+	case "map":
+		if v.K == "m" {
+			out := Val{K: "m"}
+			for _, kv := range v.M {
+				out.M = append(out.M, KV{K: kv.K, V: WidenNumbers(t, kv.V, *ty.E)})
+			}
+			return out
+		}
+	case "object":
+		if v.K == "m" {
+			out := Val{K: "m"}
+			for _, f := range ty.F {
+				fv, _ := v.Get(f.N)
+				out.M = append(out.M, KV{K: f.N, V: WidenNumbers(t, fv, f.T)})
+			}
+			return out
+		}
+	case "tuple":
+		if v.K == "l" {
+			out := Val{K: "l"}
+			for i, f := range ty.F {
+				out.L = append(out.L, WidenNumbers(t, v.L[i], f.T))
+			}
+			return out
+		}
 	}
 	return v
 }
